@@ -67,6 +67,9 @@ pub enum Mut {
     Cut { sel: u16, n: u8 },
     /// (e): prefix + [EOF] + [comment block] + 128-byte record starting with "SAUCE"
     Sauce(SauceRec),
+    /// text-mode files: a small sixel picture + one character inserted at pick(sel, content length + 1), where the content ends in
+    /// front of a SAUCE trailer (sel = 65535: at the end of the content, i.e. after everything else that was mutated)
+    Sixel { sel: u16 },
     /// not a change of the bytes: the file NAME handed to Buffer::from_bytes is FILE_NAMES[i] (see main.rs) instead of "c02.<ext>"
     FileName(u8),
     /// write `val` (little endian, `width` bytes; width 14 = big endian 4) at the absolute offset `at` (bytes beyond the end are dropped)
@@ -388,6 +391,22 @@ pub fn apply(m: &Mut, b: &mut Vec<u8>, ctx: Ctx) {
             *b = out;
         }
         Mut::FileName(_) => {}
+        Mut::Sixel { sel } => {
+            let mut end = sauce_at(b).unwrap_or(b.len());
+            if let Some(s) = sauce_at(b) {
+                let comments = b[s + 104] as usize;
+                if comments > 0 && s >= 5 + 64 * comments && &b[s - 5 - 64 * comments..s - 64 * comments] == b"COMNT" {
+                    end = s - 5 - 64 * comments;
+                }
+                if end > 0 && b[end - 1] == 0x1A {
+                    end -= 1;
+                }
+            }
+            let o = if *sel == u16::MAX { end } else { pick(*sel, end + 1).min(end) };
+            let mut ins = crate::pairs::SIXEL.to_vec();
+            ins.push(b'z');
+            b.splice(o..o, ins);
+        }
         Mut::Put { at, width, val } => write_le(b, *at as usize, *width, *val),
         Mut::Number { sel, hex, val } => {
             let runs = number_runs(b, *hex);
